@@ -47,6 +47,13 @@ class FailPlan:
         self.state_fail = set(state_fail)  # positions at which state_dict() raises
 
     def check(self, code):
+        slow = getattr(self, "slow_items", None)
+        if slow and code in slow and code not in self.__dict__.setdefault("_slept", set()):
+            # a fetch that is slow once (virtual seconds): with `timeout=` the consumer sees "DataLoader timed out" and retries
+            self._slept.add(code)
+            s = vsched.CUR
+            if s is not None and not s.closed and s.me() is not None:
+                s.switch(lambda: False, slow[code])
         if code in self.fail_items:
             raise ValueError(f"planned failure at item {code}")
         if code in getattr(self, "kill_items", ()):
@@ -92,7 +99,9 @@ class MapRng(MapDS):
 
     def __getitem__(self, i):
         self.fail.check(i)
-        return 100 * i + int(torch.randint(0, 100, (1,)).item())
+        import numpy as np
+        # one draw from each global RNG a worker seeds (torch, python random, numpy)
+        return 1_000_000 * i + 10_000 * int(torch.randint(0, 100, (1,)).item()) + 100 * random.randrange(100) + int(np.random.randint(0, 100))
 
 
 class IterPlain(tud.IterableDataset):
@@ -368,6 +377,8 @@ def make_dataset(cfg):
     ds = _make_dataset(cfg)
     if cfg.get("kill_items"):
         ds.fail.kill_items = set(cfg["kill_items"])
+    if cfg.get("slow_items"):
+        ds.fail.slow_items = {int(k): float(v) for k, v in dict(cfg["slow_items"]).items()}
     return ds
 
 
@@ -423,6 +434,8 @@ def build(cfg, cls=None, ctx=None):
             kw["multiprocessing_context"] = ctx or vsched.VCtx()
         if cfg.get("in_order") is False:
             kw["in_order"] = False
+        if cfg.get("timeout"):
+            kw["timeout"] = cfg["timeout"]
     if cls is StatefulDataLoader:
         kw["snapshot_every_n_steps"] = cfg.get("interval", 1)
     if cfg.get("collate_fail") is not None:
@@ -554,6 +567,8 @@ def take(it, sched=None):
     except vsched.VHang as e:
         return ("hang", str(e))
     except Exception as e:  # noqa
+        if type(e) is RuntimeError and "DataLoader timed out after" in str(e):
+            return ("timeout",)
         return ("error", type(e).__name__)
 
 
